@@ -22,6 +22,7 @@ RULE = RULE + " Rounds e-g: note-offs with release velocities, INTERNAL marker m
 RULE = RULE + " Round h: zero-tick waits."
 RULE = RULE + " Round i: split followed by in-place edits of every piece."
 RULE = RULE + " Round j: silent notes."
+RULE = RULE + " Round k: SEQUENCE_CONTROL messages."
 ASSUMPTIONS = ["mutators are never interleaved with an open messages_*() generator (documented as illegal)",
                "edits through messages_abs() never change `time`; invalidate_* is only called when the other view is fresh",
                "an operation that raises identically on the object and on its clean replica ends the history as inconclusive"]
